@@ -21,6 +21,7 @@ import (
 	"context"
 	"fmt"
 	"io"
+	"net"
 	"os"
 	"strings"
 	"sync"
@@ -368,7 +369,7 @@ func guardedStream(f func(ctx context.Context) error, count func() int) (string,
 			return fmt.Sprintf("stream:%d", count()), r[1]
 		}
 		return r[0], r[1]
-	case <-time.After(c14Watchdog):
+	case <-time.After(c14Watchdog + c14Confirm):
 		return "hang", ""
 	}
 }
@@ -528,6 +529,10 @@ func (b *c14BeaconWorld) callUnary(op, layer string, f []string) (string, string
 					r.CheckConn = []*drand.Address{{}, {Address: ""}}
 				case "nilelem":
 					r.CheckConn = []*drand.Address{nil}
+				case "closed3":
+					for i := 0; i < 3; i++ {
+						r.CheckConn = append(r.CheckConn, &drand.Address{Address: "127.0.0.1:1"})
+					}
 				default:
 					panic("bad conn class " + f[2])
 				}
@@ -566,8 +571,90 @@ func (b *c14BeaconWorld) probes(layer string) string {
 	return fmt.Sprintf("bplock=%s hlock=%s ci=%s pb=%s", bpl, hl, ci, pb)
 }
 
+// tarpitStatus: a Protocol.Status request whose CheckConn lists k times the address of a listener that accepts TCP
+// connections and never answers. Reports how long the call took, whether bp.state was read-held meanwhile, and
+// whether (with a writer queued on bp.state, as StopBeacon / a DKG transition would be) a PartialBeacon got through.
+func (b *c14BeaconWorld) tarpitStatus(layer string, k int) string {
+	ln, err := net.Listen("tcp", "127.0.0.1:0")
+	mustOK("tarpit listen", err)
+	defer ln.Close()
+	var conns []net.Conn
+	var cmu sync.Mutex
+	go func() {
+		for {
+			c, err := ln.Accept()
+			if err != nil {
+				return
+			}
+			cmu.Lock()
+			conns = append(conns, c)
+			cmu.Unlock()
+		}
+	}()
+	defer func() {
+		cmu.Lock()
+		for _, c := range conns {
+			c.Close()
+		}
+		cmu.Unlock()
+	}()
+	r := &drand.StatusRequest{Metadata: b.meta("known/known/ok")}
+	for i := 0; i < k; i++ {
+		r.CheckConn = append(r.CheckConn, &drand.Address{Address: ln.Addr().String()})
+	}
+	t0 := time.Now()
+	done := make(chan string, 1)
+	go func() {
+		o, _ := guarded(time.Duration(k)*4*time.Second+5*time.Second, func(ctx context.Context) error {
+			var err error
+			switch layer {
+			case "bp":
+				_, err = b.bp.Status(ctx, r)
+			case "daemon":
+				_, err = b.dd.Status(ctx, r)
+			case "grpc":
+				_, err = drand.NewProtocolClient(b.grpcConn()).Status(ctx, r)
+			}
+			return err
+		})
+		done <- o
+	}()
+	time.Sleep(300 * time.Millisecond)
+	held := "free"
+	if !b.bp.VerifStateLockFree() {
+		held = "rheld"
+	}
+	// a writer arrives (StopBeacon, newBeacon, storeDKGOutput … take bp.state.Lock)
+	wdone := make(chan struct{})
+	go func() { b.bp.VerifStateWriteLockUnlock(); close(wdone) }()
+	time.Sleep(200 * time.Millisecond)
+	// a PartialBeacon arriving now: does it get through before the Status call is over?
+	pbStart := time.Now()
+	pbDone := make(chan time.Time, 1)
+	go func() {
+		defer func() { _ = recover(); pbDone <- time.Now() }()
+		_, _ = b.bp.PartialBeacon(context.Background(), b.partial([]string{"some", "known/known/ok", "past", "valid", "right"}))
+	}()
+	o := <-done
+	stEnd := time.Now()
+	<-wdone
+	pbEnd := <-pbDone
+	pb := "ok"
+	if pbEnd.Sub(pbStart) > time.Second && !pbEnd.Before(stEnd.Add(-100*time.Millisecond)) {
+		pb = "hang" // blocked for as long as the Status call lasted
+	}
+	secs := int(stEnd.Sub(t0).Seconds() + 0.5)
+	after, _ := b.callPartial("bp", b.partial([]string{"some", "known/known/ok", "past", "valid", "right"}))
+	return fmt.Sprintf("%s secs=%d during=%s partial-behind-writer=%s after=%s", o, secs, held, pb, after)
+}
+
 func beaconOp(w *c14World, f []string) (string, bool) {
 	verbose := os.Getenv("VERIF_C14_VERBOSE") != ""
+	if f[0] == "tarpit" && w.bw != nil {
+		k := 2
+		fmt.Sscan(f[2], &k)
+		return w.bw.tarpitStatus(f[1], k), true
+	}
 	switch f[0] {
 	case "bphase":
 		w.bw.close()
